@@ -10,8 +10,11 @@
  *
  * scenario syntax:
  *   scenario <name> <nworkers> <seed> <jitter_us>
- *   caller <c> <op> ...      ops: A<dur_us>:<v|x|n|m>  addTask: int task returning a value (v) or
- *                                                   throwing (x); void task returning (n) or throwing (m)
+ *   caller <c> <op> ...      ops: A<dur_us>:<v|x|n|m|a|p|q>  addTask: int task returning a value (v) or
+ *                                                   throwing (x); void task returning (n) or throwing (m);
+ *                                                   int task with two bound arguments (a: addTask(f, x, y));
+ *                                                   task returning a structure (p) or throwing (q), whose
+ *                                                   result is read through operator-> / const operator*
  *                                 W                 wait(), then check that every task whose addTask
  *                                                   had returned before the call has run
  *                                 G                 get() every future this caller holds, check content
@@ -35,6 +38,7 @@
 #include <stdexcept>
 #include <string>
 #include <thread>
+#include <typeinfo>
 #include <unistd.h>
 #include <vector>
 #include "TFEL/System/ThreadPool.hxx"
@@ -145,11 +149,19 @@ struct Body {
   }
 };
 
+//! result of the tasks of kind p/q: a class type, so that ThreadedTaskResult<T>::operator-> is usable
+struct Boxed {
+  int v = 0;
+  int twice() const { return 2 * v; }
+};
+
 struct Held {
   std::shared_ptr<int> slot;
   bool is_void = false;
+  bool is_boxed = false;
   std::future<ThreadedTaskResult<int>> fi;
   std::future<ThreadedTaskResult<void>> fv;
+  std::future<ThreadedTaskResult<Boxed>> fb;
 };
 
 static std::atomic<int> future_mismatch{0};
@@ -169,7 +181,28 @@ static void read_future(Held& h) {
     }
     return -999997;
   };
-  if (h.is_void) {
+  if (h.is_boxed) {
+    // the content is accessed directly (no prior test): the accessors themselves must yield the
+    // result or rethrow the exception of the task; the four accessors are used in turn
+    auto res = h.fb.get();
+    const auto& cres = res;
+    try {
+      switch (id % 4) {
+        case 0: r = res->v; break;
+        case 1: r = cres->twice() / 2; break;
+        case 2: r = (*cres).v; break;
+        default: r = (*res).v; break;
+      }
+    } catch (std::runtime_error& e) {
+      r = (std::string(e.what()) == "E" + std::to_string(id)) ? -(id + 1) : -999999;
+    } catch (std::bad_cast&) {
+      r = -999996;
+    } catch (...) {
+      r = -999998;
+    }
+    // operator bool must agree with what the accessors did
+    if (static_cast<bool>(cres) != (r >= 0)) r = -999995;
+  } else if (h.is_void) {
     auto res = h.fv.get();
     r = res ? value_of(id) : from_exception(res);
   } else {
@@ -183,10 +216,16 @@ static void submit(ThreadPool& pool, std::vector<Held>& mine, const unsigned dur
   Held h;
   h.slot = std::make_shared<int>(-1);
   h.is_void = (kind == 'n' || kind == 'm');
-  const Body b{h.slot, dur, kind == 'x' || kind == 'm', blocking};
+  h.is_boxed = (kind == 'p' || kind == 'q');
+  const Body b{h.slot, dur, kind == 'x' || kind == 'm' || kind == 'q', blocking};
   pending_slot = h.slot.get();
   if (h.is_void) {
     h.fv = pool.addTask([b] { (void)b.run(); });
+  } else if (h.is_boxed) {
+    h.fb = pool.addTask([b] { return Boxed{b.run()}; });
+  } else if (kind == 'a') {
+    // bound arguments: addTask(f, x, y) must call f(x, y) (42 - 2 * 21 = 0, anything else shows in the value)
+    h.fi = pool.addTask([b](const int x, const int y) { return b.run() + (x - 2 * y); }, 42, 21);
   } else {
     h.fi = pool.addTask([b] { return b.run(); });
   }
